@@ -8,6 +8,7 @@ import Mingus.Model.Value
 import Mingus.Model.Note
 import Mingus.Model.Float
 import Mingus.Model.Machines
+import Mingus.Model.Alias
 /- Line-protocol dispatch: function name + decoded arguments → observation. -/
 namespace Mingus
 open Val
@@ -230,7 +231,44 @@ def dispatchMachines : String → List Val → Option Val
         | .ok (some l) => Machines.ncOut l | .ok Option.none => .bool false | .error e => .err e)
   | _, _ => none
 
+open Alias in
+def decodeCall : Val → Option Call
+  | .list [.str t, .str a, .str k] =>
+    if t = lit "q" then
+      (if a = lit "get_notes" then some (.query (.getNotes k)) else if a = lit "triads" then some (.query (.triads k))
+       else if a = lit "sevenths" then some (.query (.sevenths k)) else Option.none)
+    else Option.none
+  | .list [.str t, .str a, .str x, .str k] =>
+    if t = lit "q" then
+      (if a = lit "func" then some (.query (.func x k)) else if a = lit "to_chords" then some (.query (.toChords x k)) else Option.none)
+    else Option.none
+  | .list [.str t, .int i, .int r, .str x] => if t = lit "append" then some (.callerAppend i.toNat r.toNat x) else Option.none
+  | .list [.str t, .int i, .int r, .int j, .str x] => if t = lit "set" then some (.callerSet i.toNat r.toNat j.toNat x) else Option.none
+  | .list [.str t, .int i] => if t = lit "droprow" then some (.callerDropRow i.toNat) else Option.none
+  | _ => Option.none
+
+open Alias in
+def dispatchAlias : String → List Val → Option Val
+  | "alias.memo", [list calls] =>
+      (calls.mapM decodeCall).map fun cs => .list ((run true cs).2.map fun r => match r with
+        | .ok rows => toVal rows
+        | .error e => .err e)
+  | "alias.lookup", [list tb, list fs] =>
+      let table := tb.filterMap ratOf
+      let qs := fs.filterMap ratOf
+      some (toVal ((qs.foldl (fun (acc : List Nat × Option (Nat × Rat)) f =>
+        let r := lookupMem table acc.2 f; (acc.1 ++ [r.1], r.2)) ([], Option.none)).1))
+  | "alias.inst", [Val.bool rebound, list ops] =>
+      let decoded := ops.filterMap fun v => match v with
+        | .list [.str t] => if t = lit "create" then some InstOp.create else Option.none
+        | .list [.str t, .int i, .str x] => if t = lit "append" then some (InstOp.append i.toNat x) else Option.none
+        | _ => Option.none
+      let o := decoded.foldl (instStep rebound) ⟨[], []⟩
+      some (toVal ((List.range o.inst.length).map fun i => o.read i))
+  | _, _ => none
+
 def dispatch (fn : String) (args : List Val) : Option Val :=
+  (dispatchAlias fn args).orElse fun _ =>
   (dispatchMachines fn args).orElse fun _ =>
   (dispatchFloat fn args).orElse fun _ =>
   (dispatchNote fn args).orElse fun _ =>
